@@ -49,7 +49,8 @@ CONSTANTS
     CBelow, CHi, \* a DOUBLED centroid coordinate ranges over -CBelow .. CHi (cfg files cannot hold negative numbers)
     Ks,         \* set of centroid counts explored
     Ordered,    \* TRUE: only lexicographically non-decreasing data sequences
-    Replay      \* TRUE: print one REPLAY line per selected terminal state
+    Replay,     \* TRUE: print one REPLAY line per selected terminal state
+    RMod        \* replay sampling: 1 = every terminal state, m = about one in m
 
 VARIABLES
     data,       \* sequence of rows
@@ -368,9 +369,11 @@ FilterSafe ==
                         \E ci \in 1..Len(f.cands) : IsNearest(T[index[p]], cd2, f.cands[ci])
 
 (* spec -> impl: one line per selected terminal state, replayed through the
-   real BBDTree by `c12 replay-spec`.  A deterministic sample: all states in
-   which the data set has MaxN rows or a centroid coincides with another. *)
-Selected == TRUE
+   real BBDTree by `c12 replay-spec`.  RMod > 1 takes a deterministic sample
+   (a checksum of the inputs modulo RMod). *)
+Selected ==
+    (N + SumTo([i \in 1..N |-> SumTo([j \in 1..Dim |-> (i + j) * data[i][j]], Dim)], N)
+       + SumTo([c \in 1..K |-> SumTo([j \in 1..Dim |-> (2 * c + j) * (cents[c][j] + CBelow)], Dim)], K)) % RMod = 0
 Emit ==
     (Replay /\ pc = "done" /\ Selected) =>
         PrintT(<<"REPLAY", ToJson([X |-> data, c2 |-> cents, member |-> member, counts |-> counts,
